@@ -3,7 +3,7 @@ import Rivaas.Spec.OpenAPI
 /-
 Driver for C07. Case line:
 
-  <id> <30|31> <strict> <nenv> ENV* <nops> OP*  =>  OFF ON <metaValid> <refsResolve> <stable> <validatorAgrees> <served>
+  <id> <30|31> <strict> <nenv> ENV* <nops> OP*  =>  OFF ON <metaValid> <refsResolve> <stable> <validatorAgrees> <served> <coldStart>
 
   ENV := <tid> S <name> <pkgPath> <n> FIELD*  |  <tid> A TY
   FIELD := F <name> <exported> <json> <validate> <query> <path> <header> <cookie> TY | E <tid>
@@ -21,7 +21,10 @@ in the raw JSON, `stable` byte equality of repeated generations, `validatorAgree
 repository's own `validate.Validator` gives the same verdicts as the jsonschema library on the
 document and on a damaged variant of it (part of MI: the validator the model takes as a parameter is
 the one the code is wired to), `served` (cases flagged for it; otherwise 1): two app instances serve
-byte-identical specifications with the same ETag = quoted SHA-256 of the body, and answer 304 to it.
+byte-identical specifications with the same ETag = quoted SHA-256 of the body, and answer 304 to it;
+`coldStart` (cases flagged for it; otherwise 1): in a fresh process — nothing compiled yet — 8 goroutines
+released on a barrier call Generate with validation on, and 8 more a fresh `validate.New()`, for this
+(meta-schema-valid) document, and none of them is rejected.
 
 The produced JSON is read *strictly* into `Doc Schema`: a member the grammar does not know makes the
 case `unparsed` (MI=0), so nothing in the document is ignored silently.
@@ -437,9 +440,9 @@ def step (line : String) : String :=
       | .ok (off, _) =>
         -- ON and the three flags are the last tokens of the line
         let rev := obs.reverse
-        let flags := (rev.take 5).reverse
-        let t4 := (rev.drop 5).head?.getD ""
-        let t5 := (rev.drop 6).head?.getD ""
+        let flags := (rev.take 6).reverse
+        let t4 := (rev.drop 6).head?.getD ""
+        let t5 := (rev.drop 7).head?.getD ""
         let on : Res :=
           if t5 == "E" then .err t4
           else match t4 with
@@ -449,7 +452,8 @@ def step (line : String) : String :=
             | "X" => .other
             | _ => .unparsed "on"
         match flags with
-        | [mv, rr, stb, vag, srv] =>
+        | [mv, rr, stb, vag, srv, cold] =>
+          let coldStart := cold == "1"
           let validatorAgrees := vag == "1"
           let served := srv == "1"
           let metaValid := mv == "1"
@@ -481,11 +485,24 @@ def step (line : String) : String :=
             | .panic => false                       -- neither an error nor a document
             | .err _ => (match on with | .panic => false | _ => true)
             | .doc d =>
-              docOK x.v x.ops d && metaValid && refsResolve && stable && served &&
+              docOK x.v x.ops d && metaValid && refsResolve && stable && served && coldStart &&
               (match on with | .same => true | _ => false)   -- validation must not reject (or change) a valid document
             | .unparsed _ => true                   -- correspondence broken, not (yet) a property violation
             | _ => false
-          let detail := if miOff then (if miOn then (if validatorAgrees then "ok" else "validator-disagrees") else "on-mismatch") else why
+          -- which clause of S failed (for the reader of a replay file)
+          let failing : String := match off with
+            | .doc d =>
+              String.intercalate "," (
+                (if refsClosed d then [] else ["refsClosed"]) ++ (if pathParamsOK x.ops d then [] else ["pathParams"]) ++
+                (if opIdsUnique d then [] else ["opIdsUnique"]) ++ (if namesOK d then [] else ["names"]) ++
+                (if wfDoc x.v d then [] else ["WF"]) ++ (if metaValid then [] else ["metaValid"]) ++
+                (if refsResolve then [] else ["refsResolve"]) ++ (if stable then [] else ["stable"]) ++
+                (if served then [] else ["served"]) ++ (if coldStart then [] else ["coldStart"]) ++
+                (match on with | .same => [] | _ => ["validationOn"]))
+            | .panic => "panic"
+            | _ => ""
+          let detail0 := if miOff then (if miOn then (if validatorAgrees then "ok" else "validator-disagrees") else "on-mismatch") else why
+          let detail := if sOK then detail0 else detail0 ++ " failed:" ++ failing
           verdict id (miOff && miOn && validatorAgrees) sOK "-" detail
         | _ => s!"{id} bad-case flags"
 
